@@ -47,6 +47,18 @@ func TestVerif(t *testing.T) {
 }
 
 var registry = map[string]func(t *testing.T, c *Collector){
+	"C09": func(t *testing.T, c *Collector) {
+		c.res.Rule = "contents = end states of every history of <= depth ops over a colliding-key alphabet (multi-file index), closed under bit size b1 and reopened under b2 for every ordered pair of the bit-size set, then reads, iteration, a continuation, reopen (rescan) and reopen with b2 again against the reference map; file-size mismatches (index / primary / both) must be refused with the specific error, leave the directory byte-identical and the original settings working; every crash point and torn write of the re-bucketing reopen: opening the image with b1 and with b2 must each fail or show every previous key; non-trivial = histories ending with >= 2 keys sharing a bucket, plus torn images"
+		runSeqScenarios(c, c09Scenarios(c.job.Tier))
+		runC09Mismatch(c)
+		xs := c09CrashScenarios(c.job.Tier)
+		for _, x := range xs {
+			x.SkipEmpty = true
+		}
+		runCrashScenarios(c, xs)
+		c.count("nontrivial", c.res.Counters["torn_images"])
+		c.res.Engine = "S + X (sequential history enumerator over bit-size pairs; crash-image enumerator over the re-bucketing reopen)"
+	},
 	"C11": func(t *testing.T, c *Collector) {
 		c.res.Rule = "every history of <= depth ops (Put/Remove/Flush/GC) after each preamble x configuration is completed by superseding every live record (remove all / overwrite all) + Flush; non-current primary files without live records and non-current index files without bucket references are the premise files; then K = ceil(records/2)+3 cycles of PrimaryGC(threshold)+IndexGC+Flush: premise files must be empty (and gone if they were the oldest), reported storage must not grow in a cycle that relocated nothing, and after draining two further cycles must leave the directory byte-identical; non-trivial = histories with at least one premise file"
 		runSeqScenarios(c, c11Scenarios(c.job.Tier))
